@@ -82,6 +82,7 @@ class Ext(Domain):
         super().__init__()
         self.conflicts = []
         self._parents = {}
+        self._stmt_of = {}
 
     def bottom(self):
         return None
@@ -121,7 +122,29 @@ class Ext(Domain):
         return None
 
     def in_sym_arm(self, it, stmt):
-        f = it.frames[-1].func.node
+        """Is the statement executed under `if symmetry` -- lexically in its own function, or
+        because the call that reached it (helpers interpreted at the call site) is?"""
+        if self._in_sym_arm_of(it.frames[-1].func.node, stmt):
+            return True
+        for i in range(len(it.frames) - 1, 0, -1):
+            cs = getattr(it.frames[i], "callsite", None)
+            if cs is None:
+                break
+            f = it.frames[i - 1].func.node
+            sm = self._stmt_of.get(id(f))
+            if sm is None:
+                sm = {}
+                for st_ in ast.walk(f):
+                    if isinstance(st_, ast.stmt):
+                        for sub in ast.walk(st_):
+                            sm[id(sub)] = st_  # breadth-first: inner statements overwrite outer ones
+                self._stmt_of[id(f)] = sm
+            outer = sm.get(id(cs))
+            if outer is not None and self._in_sym_arm_of(f, outer):
+                return True
+        return False
+
+    def _in_sym_arm_of(self, f, stmt):
         pm = self._parents.get(id(f))
         if pm is None:
             pm = {}
